@@ -103,8 +103,46 @@ let run_dt toks = let open Table in
     (String.concat "" (Stdlib.List.map2 (fun o op -> show o op ^ " ") outs ops))
     (int_of_nat s.cver) (int_of_nat s.rver) (show_keys (Stdlib.List.map snd s.rows))
 
+(* ---- generated guards (cxx2coq): same `g <what> ...` lines as harness3.cpp ---- *)
+let u64 s = z_of_zarith (Z.erem (Z.of_string s) (Z.shift_left Z.one 64))     (* an unsigned 64-bit argument ("-1" = SIZE_MAX) *)
+let oc o = (match o with GenPrelude.Ok _ -> "A" | GenPrelude.Exn -> "R" | GenPrelude.Stuck -> "STUCK" | GenPrelude.Fuel -> "FUEL")
+let run_g toks =
+  let zi i = z_of_int i in
+  match toks with
+  | ["rm"; _; c; i; n] -> print_endline (oc (Gen_ArrayShifter.coq_Remove_guard (u64 c) (u64 i) (u64 n)))
+  | ["selrm"; c; i; n] -> print_endline (oc (Gen_SelectionGuards.coq_SelRemove_guard (u64 c) (u64 i) (u64 n)))
+  | ["insn"; _; c; i; n] ->
+    (match Gen_ArrayGuards.coq_InsertN_guard (u64 c) (u64 i) (u64 n) with
+     | GenPrelude.Exn -> print_endline "X"
+     | GenPrelude.Ok _ -> print_endline (oc (Gen_ArrayShifter.coq_InsertNogrow_guard (u64 c) (u64 i) (u64 n)))
+     | o -> print_endline (oc o))
+  | ["idx"; _; c; i] -> print_endline (oc (Gen_ArrayGuards.coq_Index_guard (u64 c) (u64 i)))
+  | ["rmback"; _; c; n] -> print_endline (oc (Gen_ArrayGuards.coq_RemoveBack_guard (u64 c) (u64 n)))
+  | ["adv"; _; c; i; d] ->
+    (match Gen_ArrayIndexIterator.op_add_assign (fun _ -> u64 c) (zi 1) (u64 i) (z d) with
+     | GenPrelude.Ok (_, i') -> print_endline ("A=" ^ string_of_z i') | o -> print_endline (oc o))
+  | ["defadv"; _; _; d] -> print_endline (oc (Gen_ArrayIndexIterator.op_add_assign (fun _ -> zi 0) (zi 0) (zi 0) (z d)))
+  | ["arrow"; _; c; i] -> print_endline (oc (Gen_ArrayIndexIterator.op_arrow (fun _ -> u64 c) (zi 1) (u64 i)))
+  | ["defarrow"; _; _] -> print_endline (oc (Gen_ArrayIndexIterator.op_arrow (fun _ -> zi 0) (zi 0) (zi 0)))
+  | ["kself"; p; snap; cur] ->
+    let mem a = if int_of_z a = 0 then zi 0 else u64 cur in
+    print_endline (oc (Gen_VersionKeeper.coq_Check_self mem (z p) (u64 snap)))
+  | ["kcont"; p; snap; c1; c2; q; al] ->
+    let mem a = if int_of_z a = 1 then u64 c1 else if int_of_z a = 2 then u64 c2 else zi 0 in
+    print_endline (oc (Gen_VersionKeeper.coq_Check_cont mem (z p) (u64 snap) (z q) (al <> "0")))
+  | ["mmrm"; c; i] -> print_endline (oc (Gen_MultiMapGuards.coq_RemoveKI_guard (u64 c) (u64 i)))
+  | ["selidx"; c; i] -> print_endline (oc (Gen_SelectionGuards.coq_SelIndex_guard (u64 c) (u64 i)))
+  | ["row"; c; i] -> print_endline (oc (Gen_TableGuards.coq_Row_guard (u64 c) (u64 i)))
+  | ["tins"; c; i] -> print_endline (oc (Gen_TableGuards.coq_TryInsert_guard (u64 c) (u64 i)))
+  | ["tupd"; c; i] -> print_endline (oc (Gen_TableGuards.coq_TryUpdateNum_guard (u64 c) (u64 i)))
+  | ["tinc"; c; p] -> print_endline (oc (Gen_TreeIterator.coq_Inc_guard (fun _ -> u64 c) (zi (if int_of_string c = 0 then 0 else 1)) (u64 p)))
+  | ["tarrow"; c; p] -> print_endline (oc (Gen_TreeIterator.coq_Arrow_guard (fun _ -> u64 c) (zi (if int_of_string c = 0 then 0 else 1)) (u64 p)))
+  | ["tdefinc"] -> print_endline (oc (Gen_TreeIterator.coq_Inc_guard (fun _ -> zi 0) (zi 0) (zi 0)))
+  | _ -> print_endline "?g"
+
 let () = iter_lines (fun line ->
   match words line with
+  | "g" :: toks -> (try run_g toks with Failure m -> print_endline ("?" ^ m))
   | ("arh" | "aih" | "sah") :: toks -> (try run_arr toks with Failure m -> print_endline ("?" ^ m))
   | "mmh" :: toks -> (try run_mm toks with Failure m -> print_endline ("?" ^ m))
   | "dth" :: toks -> (try run_dt toks with Failure m -> print_endline ("?" ^ m))
